@@ -112,8 +112,9 @@ Qed.
 Lemma int_representable_spec z : int_representable z = true <-> binary64_int z.
 Proof.
   destruct z as [|p|p]; cbn [int_representable].
-  - split; [|reflexivity]. intros _. exists 0, 0. cbn. repeat split; try lia.
-    apply Z.pow_pos_nonneg; lia.
+  - split; [|reflexivity]. intros _. exists 0, 0.
+    split; [lia|]. split; [split; [lia | apply Z.pow_pos_nonneg; lia]|].
+    split; [reflexivity | apply Z.pow_pos_nonneg; lia].
   - apply representable_pos.
   - rewrite representable_pos. unfold binary64_int. cbn [Z.abs]. reflexivity.
 Qed.
